@@ -66,6 +66,10 @@ def scenario_lines(sc, suffix):
     zck = sc["zck"] + suffix; sink = sc["zck"] + suffix + ".out"; tgt = sc["zck"] + suffix + ".tgt"
     L = ["ctx %d" % s, "open %d %s rwt" % (s, zck), "init_write %d %d" % (s, s)] + writegen.cfg_lines(sc["cfg"], s, "", tag)
     L += ["writeseg %d file:%s 8191" % (s, sc["src"]), "close %d" % s, "free %d" % s, "closefd %d" % s]
+    # a header-only run (ZCK_NO_WRITE: nothing is written, the temporary file is given up early)
+    nw = zck + ".nowrite"
+    L += ["ctx %d" % s, "open %d %s rwt" % (s, nw), "init_write %d %d" % (s, s)] + writegen.cfg_lines(sc["cfg"], s, "", tag) + ["ioption %d 5 1" % s,
+          "writeseg %d file:%s 8191" % (s, sc["src"]), "close %d" % s, "free %d" % s, "closefd %d" % s]
     L += ["ctx %d" % s, "open %d %s r" % (s, zck), "sink %d %s" % (s, sink), "init_read %d %d" % (s, s), "validate_checksums %d" % s]
     L += ["read %d 65536" % s] * (len(sc["D"]) // 65536 + 3) + ["close %d" % s, "free %d" % s, "closefd %d" % s]
     # copy + scan on a target with B's header
